@@ -86,6 +86,10 @@ CHECKS = {
          "Position: 4 800 epochs (thorough: every 3 days over -2000..4000). Finders: 10 (finder, target) pairs x 7 eras x 40 periods + 8 full calendar years incl. 29 February of Julian century years (85 190 queries, every distinct event checked); thorough: the whole range (15.4 million queries, every 10th event).",
          "Real-valued quantifier: lattices; event oracles use the library's own Moon and Sun positions.",
          "DESIGN.md 3/C15"),
+ "C20": (MC, "explicit-state exploration of the call-history graph: every catalogued public callable is a transition on the state (digest of all module-level objects and function defaults, digest of the shared argument pool); all ordered call pairs against single calls made in fresh processes; all mutator sequences of length <= 2 on copies; all argument tuples within D deviations of the base tuple over in-domain and ill-typed alphabets",
+         "The catalogue is checked against introspection (248 callables + 1 wall-clock function). Purity: the reachable state graph must be one state with 248 self-loops. Histories: all 61 504 ordered pairs (A, B): result of B after A equals B alone in a fresh process, argument pool unchanged. Copy constructors of 5 classes under every mutator sequence of length <= 2. Totality: 3 520 (thorough ~15 000) argument tuples within 1 (2) deviations plus wrong arity, and 93 explicit boundary / out-of-range probes; calls run under a 20 s watchdog.",
+         "'Documented domain' is the hand-written alphabet in vmc/props/c20_specs.py; hidden state outside module globals / argument objects is only visible through the differential pair clause.",
+         "DESIGN.md 3/C20"),
 }
 
 NOT_YET = {}
